@@ -80,12 +80,20 @@ def h_generic_d2(ctx, n1, r, n2, is_eigh, use_stab, with_cap, fixed_q=False):
     ctx.canary('canary', ctx.eq(err2, tails[0] + 1))
 
 
-def h_quasi(ctx, d, n, is_eigh, use_stab, with_cap, shift=0, lead=False):
+def h_quasi(ctx, d, n, is_eigh, use_stab, with_cap, shift=0, lead=False, dummy=False):
     """Super-diagonal TT with symbolic positive weights: all factorisations in
     closed form, so d >= 3, thresholds, caps and the mode flag run end to end.
     shift != 0: permuted bond gauge (non-symmetric core unfoldings); lead: an
-    extra leading core of TT-rank 1 carrying a symbolic factor u."""
+    extra leading core of TT-rank 1 carrying a symbolic factor u; dummy: an
+    interior mode of size 1 (identity core n x 1 x n behind the first core): the
+    tensor has one more unfolding with the same singular values, and the budget
+    of the property is still e ||Y|| over all len(Y) - 1 truncations."""
     Y, W = quasi_diag_tt(ctx, d, n, shift=shift)
+    if dummy:
+        D = zeros(ctx, (n, 1, n))
+        for i in range(n):
+            D[i, 0, i] = ctx.const(1)
+        Y = Y[:1] + [D] + Y[1:]
     u = None
     if lead:
         u = ctx.real('u')
@@ -105,7 +113,7 @@ def h_quasi(ctx, d, n, is_eigh, use_stab, with_cap, shift=0, lead=False):
     else:
         cap = int(with_cap) if with_cap else None
     Z = teneva.truncate(Y, e, cap if with_cap else 1.E+12, use_stab=use_stab, is_eigh=is_eigh)
-    ctx.claim('well_formed', well_formed(Z, [n] * dd))
+    ctx.claim('well_formed', well_formed(Z, [G.shape[1] for G in Y0]))
     ctx.claim('finite', finite(ctx, Z))
     ranks = [G.shape[2] for G in Z[:-1]]
     ctx.claim('rank_le_input', all(q <= G.shape[2] for q, G in zip(ranks, Y0)))
@@ -249,6 +257,30 @@ def h_add_many_cancel(ctx, trunc_freq, cap):
     ctx.claim('finite', finite(ctx, Z))
 
 
+def h_vanishing(ctx, n, is_eigh, use_stab, which):
+    """A tensor that vanishes identically (super-diagonal cores with symbolic
+    weights, core `which` replaced by zeros; which = None: add_many of two such
+    terms): every spectrum fits any budget, so the smallest admissible rank is
+    1 on every bond, the values stay zero and the shape is kept."""
+    d = 3
+    e = ctx.real('e')
+    ctx.assume(ctx.gt(e, 0))
+    ctx.assume(ctx.lt(e, 1))
+
+    def make(tag, k):
+        Y, W = quasi_diag_tt(ctx, d, n, name=tag)
+        Y[k] = zeros(ctx, Y[k].shape)
+        return Y
+    if which is None:
+        Z = teneva.add_many([make('a', 0), make('b', 2)], e=e, trunc_freq=1)
+    else:
+        Z = teneva.truncate(make('a', which), e, use_stab=use_stab, is_eigh=is_eigh)
+    ctx.claim('well_formed', well_formed(Z, [n] * d))
+    ctx.claim('finite', finite(ctx, Z))
+    ctx.claim('vanishing_tensor_ranks_one', all(G.shape[2] == 1 for G in Z))
+    ctx.claim('values_zero', ctx.all_eq(ref_full(Z), zeros(ctx, (n,) * d)))
+
+
 def h_concrete_wide_spectrum(ctx):
     """Real code, fixed inputs with singular values spread over many orders of
     magnitude and accuracies between them (tail energies far below the double
@@ -355,6 +387,14 @@ def instances(tier):
             if not is_eigh:
                 it['opts'] = {'symbolic_signs': False}
             out.append(it)
+    # identically vanishing tensors: rank 1 is admissible on every bond
+    for is_eigh, use_stab, which in [(True, False, 1), (True, True, 0), (False, False, 2), (True, False, None)]:
+        out.append({'func': 'h_vanishing', 'params': {'n': 2, 'is_eigh': is_eigh, 'use_stab': use_stab, 'which': which},
+                    'opts': {'symbolic_signs': False}})
+    # interior mode of size 1 (one more truncation with the same spectrum)
+    for is_eigh in (True, False):
+        out.append({'func': 'h_quasi', 'params': {'d': 2, 'n': 3, 'is_eigh': is_eigh, 'use_stab': False, 'with_cap': False,
+                                                   'dummy': True}, 'opts': {'symbolic_signs': False}})
     out.append({'func': 'h_quasi_outer', 'params': {'n': 2, 'is_eigh': True, 'use_stab': False}})
     out.append({'func': 'h_quasi_outer', 'params': {'n': 2, 'is_eigh': False, 'use_stab': False}, 'opts': {'symbolic_signs': False}})
     if not quick:
